@@ -120,7 +120,7 @@ func Load(repoDir, externDir string, patterns []string) (*Engine, error) {
 			}
 			sb.Write(src)
 			_ = f
-			e.CS.ParseContractText(relPath(repoDir, name), p.PkgPath, sb.String())
+			e.CS.ParseContractText(relPath(repoDir, name), p.PkgPath, p.Name, sb.String())
 		}
 	}
 	e.CS.LoadExternSpecs(externDir)
